@@ -94,7 +94,7 @@ DIFF_TYPES = ['list', 'dict', 'Namespace', 'Value', 'Array', 'Queue', 'JoinableQ
 def plan(tier, seed):
     q = tier == 'quick'
     specs = []
-    n_diff = 10 if q else 30
+    n_diff = 10 if q else 22
     for i in range(n_diff):
         types = [DIFF_TYPES[(i * 3 + k) % len(DIFF_TYPES)] for k in range(5)]
         specs.append({'mode': 'diff', 'seed': seed * 1000 + i, 'types': types,
@@ -102,7 +102,7 @@ def plan(tier, seed):
                       'server': 'spawn' if i % 5 == 4 else 'fork'})
     confs = [(2, 3, 'fork'), (4, 2, 'fork'), (3, 2, 'spawn'), (6, 1, 'fork'),
              (1, 6, 'fork'), (3, 3, 'forkserver'), (5, 2, 'fork'), (2, 4, 'spawn')]
-    n_conc = 6 if q else 18
+    n_conc = 6 if q else 12
     for i in range(n_conc):
         procs, ths, method = confs[i % len(confs)]
         specs.append({'mode': 'conc', 'seed': seed * 1000 + 100 + i, 'procs': procs,
@@ -110,14 +110,14 @@ def plan(tier, seed):
                       'ops': 160 if q else 400, 'runs': 1 if q else 2})
     methods = ['fork', 'spawn', 'forkserver', 'mixed', 'fork', 'mixed', 'spawn',
                'fork', 'forkserver', 'mixed']
-    n_refs = 10 if q else 30
+    n_refs = 10 if q else 22
     for i in range(n_refs):
         specs.append({'mode': 'refs', 'seed': seed * 1000 + 200 + i,
                       'method': methods[i % len(methods)],
                       'custom_key': i % 5 == 3,
                       'histories': (3 if methods[i % len(methods)] == 'fork' else 2) if q else 5,
                       'steps': [8, 36] if q else [5, 60]})
-    for i in range(3 if q else 8):
+    for i in range(3 if q else 6):
         specs.append({'mode': 'auth', 'seed': seed * 1000 + 300 + i,
                       'rounds': 3 if q else 5})
     specs.append({'mode': 'pool', 'seed': seed * 1000 + 400})
